@@ -56,6 +56,9 @@ func (ea *EncryptedAssertion) DecryptBytes(cert *tls.Certificate) ([]byte, error
 			return nil, fmt.Errorf("cannot create AES-GCM: %s", err)
 		}
 
+		if len(data) < c.NonceSize() {
+			return nil, fmt.Errorf("encrypted data is too short to contain an AES-GCM nonce: actual size %d", len(data))
+		}
 		nonce, data := data[:c.NonceSize()], data[c.NonceSize():]
 		plainText, err := c.Open(nil, nonce, data, nil)
 		if err != nil {
@@ -66,6 +69,9 @@ func (ea *EncryptedAssertion) DecryptBytes(cert *tls.Certificate) ([]byte, error
 		if len(data)%k.BlockSize() != 0 {
 			return nil, fmt.Errorf("encrypted data is not a multiple of the expected CBC block size %d: actual size %d", k.BlockSize(), len(data))
 		}
+		if len(data) < k.BlockSize() {
+			return nil, fmt.Errorf("encrypted data is too short to contain a CBC initialization vector: actual size %d", len(data))
+		}
 		nonce, data := data[:k.BlockSize()], data[k.BlockSize():]
 		c := cipher.NewCBCDecrypter(k, nonce)
 		c.CryptBlocks(data, data)
@@ -74,8 +80,14 @@ func (ea *EncryptedAssertion) DecryptBytes(cert *tls.Certificate) ([]byte, error
 		data = bytes.TrimRight(data, "\x00")
 
 		// Calculate index to remove based on padding
+		if len(data) == 0 {
+			return nil, fmt.Errorf("invalid padding: decrypted data is empty")
+		}
 		padLength := data[len(data)-1]
 		lastGoodIndex := len(data) - int(padLength)
+		if lastGoodIndex < 0 {
+			return nil, fmt.Errorf("invalid padding: padding length %d exceeds data size %d", padLength, len(data))
+		}
 		return data[:lastGoodIndex], nil
 	default:
 		return nil, fmt.Errorf("unknown symmetric encryption method %#v", ea.EncryptionMethod.Algorithm)
